@@ -1,4 +1,5 @@
 import Rare.Proofs.C02
+import Rare.Proofs.C02Filter
 import Rare.Props.C01
 import Rare.Props.C04
 import Rare.Props.C12
@@ -68,6 +69,113 @@ theorem wrapIndices_strip (s : Bytes) (colors : List Bytes) (reset : Bytes) (gro
 /-- The colour table the model uses is the one in the source. -/
 theorem colors_from_source : Gen.C02.groupColors.length = 12 ∧ Gen.C02.reset = "\x1b[0m" := by decide
 
+/-- **`{@}`.**  `SliceSpaceExpressionContext.array()` is the NUL-joined list of groups `1 … n-1`
+(`n = len(indices)/2`): the whole match (group 0) is NOT part of it, a group that did not participate
+contributes the empty text between its separators, there is no leading and no trailing separator,
+and with no groups at all it is the empty text.  It never panics on an engine's index list. -/
+theorem array_spec (line : Bytes) (indices : List Int) (hwf : WF line indices)
+    (hlen : (indices.length : Int) < 4611686018427387904) :
+    array line indices =
+      .ok (joinSep [0] ((List.range' 1 (indices.length / 2 - 1)).map fun (k : Nat) => specGroup line indices (k : Int))) :=
+  array_eq line indices hwf hlen
+
+/-- The constants of the model are the ones in the source: the array separator, the escape byte and
+code terminator of `color.StrLen`, and the two numbers of `filter`'s default-output branch. -/
+theorem c02_constants_from_source :
+    Gen.C02.arraySeparator = 0 ∧ Gen.C02.escapeRune = 0x1b ∧ Gen.C02.codeEnd = 0x6d ∧
+    Gen.C02.filterWholeLen = 2 ∧ Gen.C02.filterSkip = 2 := by decide
+
+/-- Every colour code `WrapIndices` can insert is one complete code for `color.StrLen`'s state machine
+(ESC … `m`), so "with colour codes removed" (`visible`) removes each of them entirely and nothing after it. -/
+theorem codes_closed : ∀ c ∈ lit Gen.C02.reset :: Gen.C02.groupColors.map lit, ClosedCode 0x1b c := by
+  decide
+
+/-- **Default `filter` output, colour codes removed, is the matched line** – for EVERY index list a
+matcher can hand out (`2 ≤ len`, offsets `≤ len(line)`; overlapping, nested, empty, absent (−1),
+out-of-order groups and an odd tail included – `EngineWF` is a special case, `filter_output_engine`):
+the output is the line cut into pieces, in order, with codes between them and a final newline;
+removing exactly the inserted codes (`strip`) gives the line followed by the newline, byte for byte;
+every inserted code comes from the source's table; and it does not panic.  With colours off the
+output is the line and the newline. -/
+theorem filter_output_eq_line (line : Bytes) (indices : List Int)
+    (h2 : 2 ≤ indices.length) (hr : ∀ g ∈ indices, g ≤ line.length) :
+    (∃ segs, filterLine true (Gen.C02.groupColors.map lit) (lit Gen.C02.reset) line indices = .ok segs ∧
+      strip segs = line ++ [0x0a] ∧ (texts segs).flatten = line ++ [0x0a] ∧
+      ∀ c ∈ codes segs, c = lit Gen.C02.reset ∨ c ∈ Gen.C02.groupColors.map lit) ∧
+    (∃ segs, filterLine false (Gen.C02.groupColors.map lit) (lit Gen.C02.reset) line indices = .ok segs ∧
+      render segs = line ++ [0x0a]) := by
+  obtain ⟨segs, h, hs, hc⟩ := filterLine_on (Gen.C02.groupColors.map lit) (lit Gen.C02.reset) line indices h2 hr
+  have hst : strip (segs ++ [Seg.text [0x0a]]) = line ++ [0x0a] := by rw [strip_append, hs]; rfl
+  refine ⟨⟨_, h, hst, by rw [← strip_eq_texts]; exact hst, ?_⟩,
+    ⟨_, filterLine_off _ _ line indices h2, by simp [render]⟩⟩
+  intro c hcm
+  rw [codes_append] at hcm
+  simp only [codes, List.append_nil] at hcm
+  exact hc (by decide) c hcm
+
+/-- The same for index lists as the engines return them. -/
+theorem filter_output_engine (line : Bytes) (indices : List Int) (h : EngineWF line indices) :
+    ∃ segs, filterLine true (Gen.C02.groupColors.map lit) (lit Gen.C02.reset) line indices = .ok segs ∧
+      strip segs = line ++ [0x0a] :=
+  let ⟨⟨segs, h1, h2, _⟩, _⟩ := filter_output_eq_line line indices h.two (h.wf.le_length h.even)
+  ⟨segs, h1, h2⟩
+
+/-- **What "colour codes removed" means on bytes.**  `visible` is `color.StrLen`'s state machine (ESC
+starts a code, the next `m` ends it) returning the bytes it counts.  If the line itself contains no
+ESC byte, the visible bytes of the coloured output are exactly the line and the newline.  (For a line
+that does contain ESC the byte-level reading cannot tell the line's own sequences from inserted ones –
+then `filter_output_eq_line` (removing the codes *that were inserted*) and
+`existing_escape_survives` are the statements.) -/
+theorem filter_output_visible (line : Bytes) (indices : List Int)
+    (h2 : 2 ≤ indices.length) (hr : ∀ g ∈ indices, g ≤ line.length) (hesc : (0x1b : UInt8) ∉ line) :
+    ∃ segs, filterLine true (Gen.C02.groupColors.map lit) (lit Gen.C02.reset) line indices = .ok segs ∧
+      visible (render segs) = line ++ [0x0a] := by
+  obtain ⟨⟨segs, h, hs, ht, hc⟩, _⟩ := filter_output_eq_line line indices h2 hr
+  refine ⟨segs, h, ?_⟩
+  unfold visible
+  rw [visible_render 0x1b segs ?_ ?_, hs]
+  · intro t htm he
+    have hm := texts_bytes_of_strip segs t htm _ he
+    rw [hs] at hm
+    rcases List.mem_append.mp hm with h' | h'
+    · exact hesc h'
+    · exact absurd h' (by decide)
+  · intro c hcm
+    have := hc c hcm
+    apply codes_closed
+    rcases this with e | e
+    · simp [e]
+    · exact List.mem_cons_of_mem _ e
+
+/-- **An escape sequence already present in the line survives.**  Any stretch `line[a:b]` of the matched
+line that no offset of the index list falls strictly inside of – e.g. a colour sequence the log line
+already carried – stands in the coloured output contiguously and unchanged.  (A group boundary inside
+such a sequence puts a code there, as it would between any two bytes; all bytes of the line are still
+there in order – `filter_output_eq_line`.) -/
+theorem existing_escape_survives (line : Bytes) (indices : List Int) (segs : List Seg)
+    (h : filterLine true (Gen.C02.groupColors.map lit) (lit Gen.C02.reset) line indices = .ok segs)
+    (a b : Nat) (hab : a ≤ b) (hb : b ≤ line.length)
+    (hno : ∀ g ∈ indices, ¬ ((a : Int) < g ∧ g < (b : Int))) :
+    (line.drop a).take (b - a) <:+: render segs := by
+  unfold filterLine filterLineK at h
+  simp only [] at h
+  have key : ∀ (groups : List Int) (segs' : List Seg), (∀ g ∈ groups, g ∈ indices) →
+      wrapIndicesE true line (Gen.C02.groupColors.map lit) (lit Gen.C02.reset) groups = .ok segs' →
+      (line.drop a).take (b - a) <:+: render (segs' ++ [Seg.text [0x0a]]) := by
+    intro groups segs' hsub hw
+    simp only [wrapIndicesE, Bool.not_true, Bool.false_eq_true, if_false] at hw
+    obtain ⟨p, q, e⟩ := wrapIndices_keeps line _ _ groups segs' hw a b hab hb (fun g hg => hno g (hsub g hg))
+    exact ⟨p, q ++ [0x0a], by rw [render_append, ← e]; simp [render]⟩
+  split at h
+  · rename_i segs' hw
+    simp only [Except.ok.injEq] at h; subst h
+    split at hw
+    · exact key indices segs' (fun g hg => hg) hw
+    · split at hw
+      · cases hw
+      · exact key _ segs' (fun g hg => List.mem_of_mem_drop hg) hw
+  · cases h
+
 /-- The line text of a match stays what it was however long the consumer holds it (C04: slices handed
     out by the scanner are never overwritten by later reads or buffer growth). -/
 theorem match_line_stable (bufSize : Nat) (data : Bytes) (script : List C04.Step) (h : 1 ≤ bufSize) :
@@ -98,5 +206,37 @@ example : WF [97, 98, 99] [0, 3, -1, -1, 1, 2] ∧
 example : (match wrapIndices [97, 98, 99] [[1], [2]] [0] [0, 1, 1, 3] with
     | .ok segs => strip segs
     | .error _ => []) = [97, 98, 99] := by decide
+
+/-- `EngineWF` is satisfiable on a list with an absent group, nested / overlapping groups and a group
+that lies *before* an earlier-numbered one (`(?:(b)|(a))*` on `ab` gives `[0,2, 1,2, 0,1]`). -/
+example : EngineWF [97, 98] [0, 2, 1, 2, 0, 1] ∧ EngineWF [97, 98, 99] [0, 3, -1, -1, 0, 3, 1, 2, 1, 1] := by
+  refine ⟨⟨by decide, by decide, ?_⟩, ⟨by decide, by decide, ?_⟩⟩
+  · intro k hk
+    have : k = 0 ∨ k = 1 ∨ k = 2 := by simp at hk; omega
+    rcases this with rfl | rfl | rfl <;> decide
+  · intro k hk
+    have : k = 0 ∨ k = 1 ∨ k = 2 ∨ k = 3 ∨ k = 4 := by simp at hk; omega
+    rcases this with rfl | rfl | rfl | rfl | rfl <;> decide
+
+/-- `{@}`: group 0 is not included, the absent group 2 is the empty text between two separators -/
+example : (array (lit "x yz") [0, 4, 0, 1, -1, -1, 2, 4]).toOption = some (lit "x" ++ [0, 0] ++ lit "yz") ∧
+    (array (lit "x") [0, 1]).toOption = some [] ∧ (array (lit "x") [0, 1, 0, 1]).toOption = some (lit "x") := by
+  decide
+
+/-- default `filter` output on the out-of-order list: group 2 (before group 1) is skipped, nothing is lost -/
+example : (match filterLine true [[1], [2]] [9] [97, 98] [0, 2, 1, 2, 0, 1] with
+    | .ok segs => (render segs, texts segs, codes segs)
+    | .error _ => ([], [], [])) = ([97, 1, 98, 9, 10], [[97], [98], [10]], [[1], [9]]) := by decide
+
+/-- a line that already carries `ESC[1m`: the sequence stands in the output untouched, while the byte-level
+reading (`visible`) removes it together with the inserted codes – it cannot tell them apart -/
+example :
+    (match filterLine true (Gen.C02.groupColors.map lit) (lit Gen.C02.reset) (lit "a\x1b[1mb c") [0, 8, 7, 8] with
+     | .ok segs => (render segs, visible (render segs), strip segs)
+     | .error _ => ([], [], []))
+    = (lit "a\x1b[1mb \x1b[31mc\x1b[0m\n", lit "ab c\n", lit "a\x1b[1mb c\n") := by decide
+
+/-- an index list of odd length < 2 would panic in `match.Indices[2:]` (no matcher returns one) -/
+example : (filterLine true [] [] [97] [0]).toBool = false := by decide
 
 end Rare.C02
